@@ -18,9 +18,9 @@ GROUPS = {
     "C01": (["duke/src/class_reader.rs", "duke/src/class_reader/pool.rs", "duke/src/class_reader/labels.rs"], ["C01", "C17"]),
     "C02": (["duke/src/simple_class_writer.rs", "duke/src/simple_class_writer/pool.rs", "duke/src/simple_class_writer/labels.rs"], ["C02"]),
     "C03": (["quill/src/tiny_v2.rs", "quill/src/lines.rs"], ["C03", "C04"]),
-    "C04": (["quill/src/action/apply_diff.rs", "quill/src/action/diff_mappings.rs", "quill/src/tiny_v2_diff.rs", "quill/src/tree/mappings_diff/action.rs"], ["C04", "C09"]),
+    "C04": (["quill/src/action/apply_diff.rs", "quill/src/action/diff_mappings.rs", "quill/src/tiny_v2_diff.rs", "quill/src/tree/mappings_diff/action.rs"], ["C04", "C09", "C10"]),
     "C05": (["src/version_graph.rs"], ["C05"]),
-    "C06": (["quill/src/remapper.rs"], ["C06"]),
+    "C06": (["quill/src/remapper.rs"], ["C06", "C15", "C08"]),
     "C07": (["dukebox/src/remap.rs"], ["C07"]),
     "C08": (["quill/src/action/reorder.rs"], ["C08"]),
     "C09": (["quill/src/action/merge.rs"], ["C09"]),
@@ -30,8 +30,8 @@ GROUPS = {
     "C13": (["dukebox/src/merge.rs"], ["C13"]),
     "C14": (["dukenest/src/nester_jar.rs", "dukenest/src/nester_run.rs", "dukenest/src/nests_mapper_run.rs", "dukenest/src/io.rs"], ["C14"]),
     "C15": (["src/specialized_methods/mod.rs"], ["C15"]),
-    "C17": (["duke/src/tree/class.rs", "duke/src/tree/field.rs", "duke/src/tree/method.rs", "duke/src/tree/method/code.rs", "duke/src/tree/record.rs"], ["C17", "C02"]),
-    "C18": (["duke/src/tree/descriptor.rs", "duke/src/tree/mod.rs"], ["C18"]),
+    "C17": (["duke/src/tree/class.rs", "duke/src/tree/field.rs", "duke/src/tree/method.rs", "duke/src/tree/method/code.rs", "duke/src/tree/record.rs"], ["C17", "C02", "C01", "C18", "C11"]),
+    "C18": (["duke/src/tree/descriptor.rs", "duke/src/tree/mod.rs"], ["C18", "C02"]),
     "C19": (["maven_dependency_resolver/src/lib.rs", "maven_dependency_resolver/src/maven_pom_done.rs", "maven_dependency_resolver/src/tree.rs", "maven_dependency_resolver/src/coord.rs"], ["C19"]),
     "C20": (["raw_class_file/src/lib.rs", "raw_class_file/src/macros.rs"], ["C20"]),
 }
@@ -180,6 +180,14 @@ def main():
     rng = random.Random(seed)
     rng.shuffle(allsites)
     todo = [s for s in allsites if (s[0], s[1] + 1, s[2], s[3]) not in done][:mx]
+    if "--retry-survivors" in args:
+        # run the logged survivors again (after a check was strengthened or the group's check list grew); the report uses the latest record
+        last = {}
+        for l in open(out_path):
+            r = json.loads(l)
+            last[(r["file"], r["line"], r["op"], r.get("k", 0))] = r["result"]
+        want = {k for k, v in last.items() if v in ("survived", "inconclusive")}
+        todo = [s for s in allsites if (s[0], s[1] + 1, s[2], s[3]) in want]
     print(f"{group}: {len(allsites)} sites, {len(done)} done before, running {len(todo)}", flush=True)
     with open(out_path, "a") as log:
         for f, ln, op, k, before, after in todo:
